@@ -14,6 +14,7 @@ fn cfg() -> Cfg {
         eintr_every: 0,
         hash_xor: 0,
         contract: None,
+        adopt_alive: false,
     }
 }
 
